@@ -1,7 +1,7 @@
 (* C19 — Serialization round-trips Polylines and Planes at the stated precision.
    Only statements; each closed by `exact <lemma>` from proofs/P_serialize.v.
-   The model (M_serialize.v) is of the code with the two proposed fixes applied:
-   fixes/C19-empty-polyline-deserialize.diff and fixes/C19-plane-rounded-direction-decimals.diff (both committed in /repo).
+   The model (M_serialize.v) is of the code as repaired by /repo commits b58b02b (empty polyline deserialize),
+   981c15b (Plane.rounded passes direction_decimals on) and 2b8d651 (serialize emits bool(is_closed)).
    The schema term polliwog_defs is compared with the freshly extracted polliwog/schema.json on every run. *)
 From Coq Require Import ZArith Reals List Bool String.
 From PW Require Import Num NumR Vec NpList Result.
